@@ -35,7 +35,8 @@ class ExternalStateAdapter(metaclass=ABCMeta):
         return self._save_instance(state)
 
     def load_state(self) -> list[InstanceState]:
-        state = self._load_state()
+        # an instance whose stored state cannot be read is skipped, the others are still restored
+        state = [cur_state for cur_state in self._load_state() if cur_state is not None]
         if(self.compress):
             for cur_state in state:
                 if(cur_state is not None and cur_state.state is not None):
